@@ -368,6 +368,14 @@ pub struct FaultCase {
     /// calls whose behaviour does not pass through `types_equal` are judged (see `run`)
     #[serde(default)]
     pub shared_path_base: bool,
+    /// evaluated under the additional substitute `p::a::G<T> -> ::ext::Opaque`
+    #[serde(default)]
+    pub drop_subst: bool,
+}
+
+thread_local! {
+    /// evaluate faults under the additional substitute `p::a::G<T> -> ::ext::Opaque` (set around a batch of calls)
+    static DROP_SUBST: std::cell::Cell<bool> = const { std::cell::Cell::new(false) };
 }
 
 /// Evaluate one fault on one base registry.
@@ -386,11 +394,15 @@ pub fn check_fault(
         Fault::BitsPathNone => spec.bits_path = None,
         _ => {}
     }
+    let drop_subst = DROP_SUBST.with(|d| d.get());
+    if drop_subst {
+        spec.substitutes.push(("p::a::G<T>".into(), "::ext::Opaque".into()));
+    }
     let settings = spec.build();
     let subs: Vec<Vec<String>> = spec
         .substitutes
         .iter()
-        .map(|(f, _)| f.split("::").map(|s| s.to_string()).collect())
+        .map(|(f, _)| f.split('<').next().unwrap_or("").split("::").map(|s| s.trim().to_string()).collect())
         .collect();
     let is_sub = move |p: &[String]| subs.iter().any(|s| s.as_slice() == p);
     let walk = Walk {
@@ -398,7 +410,7 @@ pub fn check_fault(
         substituted: &is_sub,
     };
     let size = base.types.len();
-    let replay = || json!({"check": "C10", "case": serde_json::to_value(FaultCase { base: base_prog.clone(), fault: fault.clone(), shared_path_base: shared }).unwrap(), "source": base_prog.to_source()});
+    let replay = || json!({"check": "C10", "case": serde_json::to_value(FaultCase { base: base_prog.clone(), fault: fault.clone(), shared_path_base: shared, drop_subst }).unwrap(), "source": base_prog.to_source()});
     let kind = match fault {
         Fault::SwapIds(_) => "swap-ids".to_string(),
         Fault::ShiftIds(_) => "shift-ids".to_string(),
@@ -717,6 +729,17 @@ pub fn run(tier: &str, seed: u64) -> i32 {
             for f in faults_of(&base) {
                 check_fault(&prog, &base, &f, false, ctx);
             }
+            // ... and under a substitute that DROPS the parameter of the helper generic (`p::a::G<T> -> ::ext::Opaque`):
+            // the argument of a substituted type is still resolved, so a fault in it is still reported
+            if base.types.iter().any(|t| t.ty.path.segments.join("::") == "p::a::G") {
+                DROP_SUBST.with(|d| d.set(true));
+                for f in faults_of(&base) {
+                    if matches!(f, Fault::Dangling { .. } | Fault::CompactPathNone | Fault::BitsPathNone) {
+                        check_fault(&prog, &base, &f, false, ctx);
+                    }
+                }
+                DROP_SUBST.with(|d| d.set(false));
+            }
         }
     }));
     // bases in which one generic definition has two instantiations (two entries under one path that
@@ -899,7 +922,9 @@ pub fn replay(v: &serde_json::Value) -> Result<Vec<Violation>, String> {
     } else {
         let c: FaultCase = serde_json::from_value(v["case"].clone()).map_err(|e| e.to_string())?;
         let base = elaborate(&c.base).registry;
+        DROP_SUBST.with(|d| d.set(c.drop_subst));
         check_fault(&c.base, &base, &c.fault, c.shared_path_base, &mut ctx);
+        DROP_SUBST.with(|d| d.set(false));
     }
     Ok(ctx.violations)
 }
